@@ -70,6 +70,7 @@ func loadPath(v ssa.Value, path ...string) (ssa.Value, bool) {
 }
 
 func runC08(p *Prog, r *Report) {
+	c08HeaderDiscipline(p, r)
 	// R7: debug logging does not change the request that is forwarded (a filled req.Form makes the stdlib proxy re-encode the query); shared with C06.R6
 	checkDumpReadOnly(p, r, "C08.R7")
 	c08Modify(p, r)
@@ -818,6 +819,8 @@ func hookRunsAfterHopRemoval(p *Prog, hook string) (after bool, ok bool) {
 func mutantsC08() []Mutant {
 	fw, rw, hd := "forward/fwd.go", "forward/rewrite.go", "forward/headers.go"
 	return []Mutant{
+		{Name: "expect-header-dropped", File: "forward/fwd.go", Old: "\toutReq.ProtoMinor = 1\n", New: "\toutReq.ProtoMinor = 1\n\toutReq.Header.Del(\"Expect\")\n", Expect: "C08.R8"},
+		{Name: "target-reparsed-only-in-origin-form", File: "forward/fwd.go", Old: "\tif req.RequestURI != \"\" {\n", New: "\tif len(req.RequestURI) > 0 && req.RequestURI[0] == '/' {\n", Expect: "C08.R1"},
 		{Name: "forwarded-port-may-be-empty", File: "forward/rewrite.go", Old: "err == nil && port != \"\" {", New: "err == nil {", Expect: "C08.R4"},
 		{Name: "shared-header-rewriter", File: "forward/rewrite.go", Old: "\treturn &HeaderRewriter{TrustForwardHeader: true, Hostname: h}\n", New: "\tsharedRewriter.Hostname = h\n\treturn sharedRewriter\n", More: []Edit{{"forward/rewrite.go", "// NewHeaderRewriter creates", "var sharedRewriter = &HeaderRewriter{TrustForwardHeader: true}\n\n// NewHeaderRewriter creates"}}, Expect: "C08.R6"},
 		{Name: "drop-rawpath", File: fw, Old: "\toutReq.URL.RawPath = u.RawPath\n", New: "", Expect: "C08.R1"},
@@ -837,5 +840,102 @@ func mutantsC08() []Mutant {
 		{Name: "port-ignores-tls", File: "forward/rewrite.go", Old: "\tif req.TLS != nil {\n\t\treturn \"443\"\n\t}\n\n\treturn \"80\"\n", New: "\treturn \"80\"\n", Expect: "C08.R4"},
 		{Name: "dump-parses-form", File: "utils/dumpreq.go", Old: "\trc.Header = r.Header\n", New: "\trc.Header = r.Header\n\t_ = r.ParseForm()\n", Expect: "C08.R7"},
 		{Name: "connection-rewritten-in-hook", File: "forward/fwd.go", Old: "\t\t\tmodifyRequest(request)\n", New: "\t\t\tmodifyRequest(request)\n\t\t\tif request.Header.Get(\"Upgrade\") != \"\" {\n\t\t\t\trequest.Header.Set(\"Connection\", \"Upgrade\")\n\t\t\t}\n", Expect: "C08.R6"},
+	}
+}
+
+// c08HeaderDiscipline (R8): end-to-end headers pass through the forwarder untouched and hop-by-hop removal is
+// left to the standard library, which looks headers up under their canonical names. In package forward the
+// request's header map is therefore changed only through Header.Set/Add (canonicalising) and through
+// utils.RemoveHeaders(req.Header, XHeaders...): no Header.Del, no `delete`, no direct map assignment (a
+// re-spelled key escapes the stdlib's canonical delete of headers named in Connection). R1 also: the client's
+// request target is re-parsed whenever RequestURI is non-empty — the fallback to req.URL lies only on the
+// RequestURI == "" edge or on the parser's error edge.
+func c08HeaderDiscipline(p *Prog, r *Report) {
+	isHdr := func(t types.Type) bool { return typeIs(t, pkgHTTP, "Header") }
+	n := 0
+	for _, fn := range p.PkgFuncs("forward") {
+		for _, b := range fn.Blocks {
+			for _, in := range b.Instrs {
+				switch x := in.(type) {
+				case *ssa.MapUpdate:
+					if isHdr(x.Map.Type()) {
+						n++
+						r.Fail("C08.R8", FName(fn)+": header map written directly", p.InstrPos(in), "a header is stored with a map assignment (no canonicalisation): a key spelled differently from its canonical form is not found by the standard library's hop-by-hop removal and reaches the backend although the client named it in Connection")
+					}
+				case ssa.CallInstruction:
+					cc := x.Common()
+					if bi, ok := cc.Value.(*ssa.Builtin); ok && bi.Name() == "delete" && len(cc.Args) > 0 && isHdr(cc.Args[0].Type()) {
+						n++
+						r.Fail("C08.R8", FName(fn)+": header deleted from the map directly", p.InstrPos(in), "the forwarder deletes a header with the delete builtin")
+					}
+					if o := calleeObj(cc); o != nil && o.Pkg() != nil && o.Pkg().Path() == pkgHTTP && objName(o) == "Header.Del" {
+						n++
+						r.Fail("C08.R8", FName(fn)+": end-to-end header removed", p.InstrPos(in), "the forwarder removes a request header itself ("+truncate(BuildExpr(p, cc.Args[len(cc.Args)-1], nil).String(), 40)+"): end-to-end headers must reach the backend, hop-by-hop removal is the standard library's")
+					}
+					if f := cc.StaticCallee(); f != nil && f.Pkg != nil && f.Name() == "RemoveHeaders" && strings.HasSuffix(f.Pkg.Pkg.Path(), "/utils") {
+						n++
+						okX := false
+						if len(cc.Args) == 2 {
+							if u, ok := stripConv(cc.Args[1]).(*ssa.UnOp); ok {
+								if g, ok := u.X.(*ssa.Global); ok && g.Name() == "XHeaders" {
+									okX = true
+								}
+							}
+						}
+						r.Check(okX, "C08.R8", FName(fn)+": only the X-Forwarded-* registry is removed", p.InstrPos(in), "utils.RemoveHeaders(req.Header, XHeaders...)", "headers other than the X-* registry are removed from the request")
+					}
+				}
+			}
+		}
+	}
+	r.Floor("C08.R8", n, 1, "header removals / direct writes examined in package forward")
+	// fallback of the request-target parser
+	for _, fn := range p.PkgFuncs("forward") {
+		for _, c := range Calls(fn) {
+			call, ok := c.(*ssa.Call)
+			if !ok || !ccIs(call.Common(), "net/url", "ParseRequestURI") {
+				continue
+			}
+			r.Fn(FName(fn))
+			var allowed []Edge
+			for _, t := range NilTests(fn, resultValue(call, 1)) {
+				allowed = append(allowed, t.NonNil)
+			}
+			for _, ifi := range ifs(fn) {
+				cnd, pos := condStrip(ifi.Cond)
+				bo, ok := cnd.(*ssa.BinOp)
+				if !ok || (bo.Op != token.EQL && bo.Op != token.NEQ) {
+					continue
+				}
+				if sv, ok := constString(bo.Y); !ok || sv != "" || !strings.HasSuffix(BuildExpr(p, bo.X, nil).String(), ".RequestURI") {
+					continue
+				}
+				k := 0
+				if (bo.Op == token.EQL) != pos {
+					k = 1
+				}
+				allowed = append(allowed, Edge{ifi.Block(), k})
+			}
+			for _, ret := range Returns(fn) {
+				v := stripConv(ReturnOperand(ret, 0))
+				if ex, ok := v.(*ssa.Extract); ok && ex.Tuple == ssa.Value(call) {
+					continue
+				}
+				if ph, ok := v.(*ssa.Phi); ok {
+					only := true
+					for _, e := range ph.Edges {
+						if ex, ok := stripConv(e).(*ssa.Extract); !ok || ex.Tuple != ssa.Value(call) {
+							only = false
+						}
+					}
+					if only {
+						continue
+					}
+				}
+				r.Paths++
+				r.Check(len(allowed) > 0 && !ReachableWithoutEdges(fn, ret, allowed), "C08.R1", FName(fn)+": req.URL is used only when there is no request target or it does not parse", p.InstrPos(ret), "the fallback return is unreachable once the RequestURI == \"\" edge and the parser's error edge are deleted",
+					"the fallback to req.URL is taken for request targets that would parse (an extra condition on RequestURI): an absolute-form target reaches the backend as the backend URL's own path, not as the client encoded it")
+			}
+		}
 	}
 }
